@@ -1,4 +1,5 @@
 import PsV.Proofs.Bridge
+import PsV.Proofs.Unity
 /-!
 # C01 — evaluation equals the tensor-product B-spline sum it represents
 
@@ -23,6 +24,15 @@ theorem C01_eval_eq_spec_partial (T : Table α) (xs : List α) (cs : List Nat) (
     (hs : @searchCenters α (cmpLO α) (T.dims.map Dim.axis) xs = .ok cs) :
     ndsplineeval T xs cs 0 = specEval T xs (List.replicate T.dims.length .value) :=
   ndsplineeval_eq_specEval T xs cs (allOK_of_search T.dims xs cs hwf.dims hlen hnd hs) hwf.stride
+
+/-- **Partition of unity.**  A table whose coefficients are all one evaluates to one at every
+accepted point of the fully supported region `knots[order] ≤ x ≤ knots[naxes]` (every dimension). -/
+theorem C01_ones (T : Table α) (xs : List α) (cs : List Nat) (hwf : T.WF)
+    (hlen : T.dims.length = xs.length) (hnd : AllNonDegenerate T.dims xs)
+    (hs : @searchCenters α (cmpLO α) (T.dims.map Dim.axis) xs = .ok cs)
+    (hones : ∀ i, T.coef i = 1) (hfull : AllFull T.dims xs) :
+    ndsplineeval T xs cs 0 = 1 :=
+  ndsplineeval_ones T xs cs (allOK_of_search T.dims xs cs hwf.dims hlen hnd hs) hwf.stride hones hfull
 
 /-- The call operator returns zero when the lookup fails and the evaluated value otherwise; on a
 well-formed table it always returns (the lookup terminates). -/
